@@ -7,7 +7,7 @@ from vlib import common as C
 from vlib.common import Query
 H = os.path.join(C.VERIF, 'harness', 'C03')
 ROOTS = ['p_init', 'p_reserve', 'p_slice', 'p_release', 'p_resize', 'p_shrink', 'p_set_alignment', 'p_off', 'p_size', 'p_ptr', 'p_pool_size', 'p_pool_reserved',
-         'p_pool_nres', 'p_pool_alignment', 'p_pool_ptr', 'p_pool_buffer_size', 'p_dev_bytes', 'p_arena_overflow']
+         'p_pool_nres', 'p_pool_alignment', 'p_pool_ptr', 'p_pool_buffer_size', 'p_dev_bytes', 'p_arena_overflow', 'b_ring_empty', 'b_dtor_tail']
 AL = 4          # initial alignment (set on the empty pool)
 SMAX = 9        # request sizes 1..SMAX bytes
 NH = 6
